@@ -13,7 +13,9 @@ package dsched
 import (
 	"context"
 	"fmt"
+	"os"
 	"runtime"
+	"strconv"
 	"strings"
 	"sync"
 	"sync/atomic"
@@ -450,8 +452,19 @@ type transition struct {
 	early   bool // the task enters the blocking operation although it cannot complete yet
 }
 
+// quiesceTimeout: how long the scheduler waits for a running task to reach its next point (45 s;
+// VERIF_DSCHED_TIMEOUT_S shortens it for debugging).
+func quiesceTimeout() time.Duration {
+	if v := os.Getenv("VERIF_DSCHED_TIMEOUT_S"); v != "" {
+		if n, err := strconv.Atoi(v); err == nil && n > 0 {
+			return time.Duration(n) * time.Second
+		}
+	}
+	return 45 * time.Second
+}
+
 func (x *Exec) quiesce() bool {
-	timer := time.NewTimer(45 * time.Second)
+	timer := time.NewTimer(quiesceTimeout())
 	defer timer.Stop()
 	for x.running > 0 || x.pending > 0 {
 		select {
@@ -602,6 +615,27 @@ func (x *Exec) opReady(o opInfo) bool {
 		default:
 			return false
 		}
+	}
+	return false
+}
+
+// Blocked reports whether the task waits at a blocking operation that cannot complete now (for gate
+// conditions of environment tasks; only meaningful while the tasks are parked).
+func (x *Exec) Blocked(t *Task) bool {
+	if t == nil || t.ended {
+		return false
+	}
+	if t.inflight {
+		return true
+	}
+	if !t.parked {
+		return false
+	}
+	switch t.cur.kind {
+	case KSend, KRecv, KWait:
+		return !x.opReady(t.cur) && !ctxDone(t.cur.ctx)
+	case KSleep:
+		return !ctxDone(t.cur.ctx)
 	}
 	return false
 }
@@ -1150,7 +1184,9 @@ func Explore(sc *Scenario, maxBound, limit int) *Stats {
 		st.EngineError = e1 + e2
 		return st
 	}
-	if strings.Join(a.Trace, " ") != strings.Join(b.Trace, " ") {
+	if a.Stuck == "" && b.Stuck == "" && strings.Join(a.Trace, " ") != strings.Join(b.Trace, " ") {
+		// (an execution that ended with a task stuck in a granted operation is judged, and confirmed
+		// by a replay, in the exploration below; its trace depends on when the wait was given up)
 		st.EngineError = "the default schedule is not deterministic:\n " + strings.Join(a.Trace, " ") + "\n " + strings.Join(b.Trace, " ")
 		return st
 	}
@@ -1171,8 +1207,17 @@ func Explore(sc *Scenario, maxBound, limit int) *Stats {
 			if x.Stuck != "" {
 				// confirm before believing a time-based observation
 				y, e2 := run(sc, x.Choices)
+				for try := 0; try < 2 && e2 == "" && y.Stuck == ""; try++ {
+					y, e2 = run(sc, x.Choices) // goroutines of the abandoned execution may still have been winding down
+				}
 				if e2 != "" || y.Stuck == "" {
-					st.EngineError = "a task did not reach its next scheduling point within 45 s, and this did not reproduce: " + x.Stuck + " " + e2
+					tail := func(t []string) string {
+						if len(t) > 12 {
+							t = t[len(t)-12:]
+						}
+						return strings.Join(t, " ")
+					}
+					st.EngineError = "a task did not reach its next scheduling point within 45 s, and this did not reproduce: " + x.Stuck + " " + e2 + " | first: " + tail(x.Trace) + " | second: " + tail(y.Trace) + fmt.Sprintf(" | choices %d vs %d", len(x.Choices), len(y.Choices))
 					return false
 				}
 				st.Executions++
